@@ -160,6 +160,11 @@ def check_call(run, case):
     def same(o):
         if o[0] == 'exc':
             return got[0] == 'exc' and got[1] == o[1]
+        if family.get('decl') == 'shared-payload':
+            # (families borrowed from C06: every member keeps the very same
+            # payload object, which reports the arguments only)
+            return got[0] == 'ok' and got[1] is None and \
+                got[2:4] == _norm([o[2], o[3]])
         return got[0] == 'ok' and got[1:4] == _norm([o[1], o[2], o[3]])
     hit = [o for o in outcomes if same(o)]
     if not hit:
